@@ -1520,6 +1520,12 @@ fn collect<T: Row>(c: PCollection<T>, mode: Mode) -> Value {
 
 /// run `f` on a watchdog thread (5 s => ["hang"]) under catch_unwind (=> ["panic"]); `f` records
 /// the scratch file of a sharded source so that it can be removed afterwards
+/// time limit of the watchdog for the case being run: 5 s plus 1 ms per source row (a loaded
+/// machine must not turn a 70 000-row case into a "hang"); set by `set_watchdog_for`
+static WATCHDOG_MS: AtomicU64 = AtomicU64::new(5000);
+pub fn set_watchdog_for(rows: usize) {
+    WATCHDOG_MS.store(5000 + rows as u64, Ordering::SeqCst);
+}
 fn watchdog(f: impl FnOnce(&mut Option<String>) -> Value + Send + 'static) -> Value {
     let (tx, rx) = mpsc::channel::<(Value, Option<String>)>();
     std::thread::spawn(move || {
@@ -1527,7 +1533,7 @@ fn watchdog(f: impl FnOnce(&mut Option<String>) -> Value + Send + 'static) -> Va
         let out = catch_unwind(AssertUnwindSafe(|| f(&mut file))).unwrap_or_else(|_| json!(["panic"]));
         let _ = tx.send((out, file));
     });
-    match rx.recv_timeout(Duration::from_secs(5)) {
+    match rx.recv_timeout(Duration::from_millis(WATCHDOG_MS.load(Ordering::SeqCst))) {
         Ok((v, file)) => {
             if let Some(f) = file {
                 let _ = std::fs::remove_file(f);
@@ -1608,6 +1614,7 @@ pub fn run_program(src: &Src, steps: &[Step], mode: Mode, dir: &str) -> Value {
         return json!(["invalid"]);
     }
     let (src, steps, dir) = (src.clone(), steps.to_vec(), dir.to_string());
+    set_watchdog_for(src.len());
     watchdog(move |file| finish_program(&Pipeline::default(), &src, &steps, &dir, file, mode, false))
 }
 /// a program ending in try_map, through `collect_fail_fast`: ["ok", payloads] | ["err","fail_fast"]
@@ -1616,6 +1623,7 @@ pub fn run_failfast(src: &Src, steps: &[Step], dir: &str) -> Value {
         return json!(["invalid"]);
     }
     let (src, steps, dir) = (src.clone(), steps.to_vec(), dir.to_string());
+    set_watchdog_for(src.len());
     watchdog(move |file| finish_program(&Pipeline::default(), &src, &steps, &dir, file, Mode::Seq, true))
 }
 
@@ -1630,6 +1638,7 @@ pub fn run_branch(src: &Src, prefix: &[Step], a: &[Step], b: &[Step], modes: &[M
     }
     let (src, prefix, a, b, modes, dir) =
         (src.clone(), prefix.to_vec(), a.to_vec(), b.to_vec(), modes.to_vec(), dir.to_string());
+    set_watchdog_for(src.len());
     watchdog(move |file| {
         let p = Pipeline::default();
         let base = match build(&p, &src, &prefix, &dir) {
@@ -1735,6 +1744,7 @@ pub fn run_sorted_case(input: &Value, dir: &str) -> Value {
         _ => return json!(["invalid"]),
     }
     let dir = dir.to_string();
+    set_watchdog_for(src.len());
     watchdog(move |file| {
         let built = match build(&Pipeline::default(), &src, &steps, &dir) {
             Ok(b) => b,
